@@ -210,9 +210,9 @@ static void run(unsigned na, unsigned nb, unsigned k)
 }
 
 // histories from (almost) empty containers
-extern "C" int history() { run(0, vf_pick(3), VF_K); return 0; }
+extern "C" int history() { unsigned nb = vf_pick(3); run(0, nb, VF_K); return 0; }
 // one/two steps from every pre-state length (for Array this crosses every |3 growth boundary up to VF_N)
-extern "C" int step() { run(vf_pick(VF_N + 1), vf_pick(3), 2); return 0; }
+extern "C" int step() { unsigned na = vf_pick(VF_N + 1); unsigned nb = vf_pick(3); run(na, nb, 2); return 0; }   // sequenced: argument evaluation order differs between compilers
 
 #if CONT == 1
 // List::sort: ascending permutation of the previous contents
